@@ -19,7 +19,7 @@ static char shape[8];
 static nsync_note R, C, G, S, extra;
 static nsync_counter cnt[2];
 static int built_allocs;
-static volatile int root_ready, build_done;
+static volatile int root_ready, build_done, other_prewarmed;
 
 static int al_setup (const char *program) {
 	const char *c1 = strchr (program, ':'), *c2;
@@ -63,6 +63,7 @@ static void al_thread (int me) {
 	const char *p;
 	if (me == 1) {            /* concurrent user of the intended parent */
 		prewarm ();
+		mc_flag_set (&other_prewarmed, 1);
 		mc_await (&root_ready);
 		if (R != NULL) {
 			(void) nsync_note_is_notified (R);
@@ -73,6 +74,7 @@ static void al_thread (int me) {
 		return;
 	}
 	prewarm ();
+	if (concurrent) mc_await (&other_prewarmed);   /* the fault is armed only once every thread owns its waiter record */
 	mc_fail_alloc_at (fail_k);
 	{ int a0 = mc_alloc_count ();
 	for (p = shape; *p; p++) switch (*p) {
